@@ -41,6 +41,22 @@ class Sentinel:
         return "<ret {}>".format(self.nid)
 
 
+class AwaitableSentinel(Sentinel):
+    """a job may well return something that can be awaited (a future, the
+    task of a service it started): the value of the job is that object, and
+    nobody but the user is to await it"""
+    __slots__ = ('ctx',)
+
+    def __init__(self, nid, ctx):
+        Sentinel.__init__(self, nid)
+        self.ctx = ctx
+
+    def __await__(self):
+        self.ctx.log('mark', self.nid, 'result-awaited')
+        return Sentinel(self.nid + ':inner')
+        yield                                   # pylint: disable=W0101
+
+
 class Ctx:
     """per-run context: loop, event log, node registry, hash salt"""
 
@@ -181,6 +197,11 @@ class _NodeMixin:
 
 class _JobMixin(_NodeMixin):
 
+    def __bool__(self):
+        # a job object may be falsy (a user class with __len__ / __bool__):
+        # it is a job all the same
+        return not self.spec.get('falsy')
+
     def is_critical(self):
         # a user-defined job class may compute its criticality itself and
         # leave the constructor's flag alone: is_critical() is the accessor
@@ -236,7 +257,8 @@ class _JobMixin(_NodeMixin):
             ctx.objs.setdefault(nid, {})['exc'] = exc
             ctx.log('exit', nid, 'exc')
             raise exc
-        ret = Sentinel(nid)
+        ret = AwaitableSentinel(nid, ctx) if spec.get('ret_awaitable') \
+            else Sentinel(nid)
         ctx.objs.setdefault(nid, {})['ret'] = ret
         ctx.log('exit', nid, 'ret')
         return ret
@@ -285,8 +307,21 @@ class SimCoroJob(_JobMixin, Job):
 
 class _SchedMixin(_NodeMixin):
 
+    def __len__(self):
+        # a scheduler class of the application may count differently, e.g.
+        # the jobs of the whole tree
+        if self.spec.get('odd_len'):
+            return sum(len(job) if isinstance(job, _SchedMixin) else 1
+                       for job in self.jobs)
+        return len(self.jobs)
+
     async def _logged_run(self, inner):
         ctx, nid = self.ctx, self.nid
+        if self.spec.get('crit_late'):
+            # the documented attribute assigned once the run has begun (by
+            # the loop's next iteration, before any job body has run)
+            ctx.loop.call_soon(setattr, self, 'critical',
+                               self.spec['critical'])
         ctx.log('run_begin', nid)
         try:
             value = await inner
